@@ -510,7 +510,7 @@ func (e *edited) kinds() []string {
 	}
 	three := []string{"read", "copy", "readall"}
 	switch e.class {
-	case "extend-small", "extend", "big-extend", "sequence-own+foreign", "unmodified":
+	case "extend-small", "extend", "extend-whitespace", "big-extend", "sequence-own+foreign", "unmodified":
 		return product(allKinds, consumeModes)
 	case "armor-after-end", "armor-whitespace", "armor-no-end", "armor-cut-end", "armor-body", "armor-payload-extended", "unmodified-armored", "leftover":
 		return product([]string{"segments", "filled", "filled+eof", "bufio4096"}, three)
